@@ -216,8 +216,18 @@ func (g *Generator) generateOneofMarshalVariants(gf *protogen.GeneratedFile, inf
 
 		if info.Flatten && variant.IsMessage {
 			g.generateFlattenedMarshal(gf, variant)
+		} else if variant.IsMessage {
+			// Non-flattened: protojson already put the variant under its field name; a variant with its own
+			// MarshalJSON (annotation composability) writes itself there instead
+			gf.P("if inner := x.Get", variant.Field.GoName, "(); inner != nil {")
+			gf.P("if variantMarshaler, ok := any(inner).(json.Marshaler); ok {")
+			gf.P("if variantData, varErr := variantMarshaler.MarshalJSON(); varErr == nil {")
+			gf.P(`raw["`, variant.Field.Desc.JSONName(), `"] = variantData`)
+			gf.P("}")
+			gf.P("}")
+			gf.P("}")
 		}
-		// Non-flattened: protojson already puts variant under its field name, just add discriminator
+		// Scalar variants: protojson already puts the value under its field name, just add discriminator
 	}
 
 	gf.P("default:")
@@ -242,6 +252,8 @@ func (g *Generator) generateFlattenedMarshal(
 	gf.P("if variantMarshaler, ok := any(inner).(json.Marshaler); ok {")
 	gf.P("variantData, varErr = variantMarshaler.MarshalJSON()")
 	gf.P("}")
+	// Remove the wrapper key that protojson added (before merging: a member of the variant may have that name)
+	gf.P("delete(raw, \"", fieldJSONName, "\")")
 	gf.P("if varErr == nil {")
 	gf.P("var variantMap map[string]json.RawMessage")
 	gf.P("if json.Unmarshal(variantData, &variantMap) == nil {")
@@ -251,9 +263,6 @@ func (g *Generator) generateFlattenedMarshal(
 	gf.P("}")
 	gf.P("}")
 	gf.P("}")
-
-	// Remove the wrapper key that protojson added
-	gf.P("delete(raw, \"", fieldJSONName, "\")")
 	gf.P("}")
 }
 
@@ -280,6 +289,11 @@ func (g *Generator) generateOneofUnmarshalJSON(gf *protogen.GeneratedFile, ctx *
 	gf.P("}")
 	gf.P()
 
+	// A message variant is decoded here (by its own UnmarshalJSON when it has one) and taken out of the map:
+	// protojson decodes the rest and resets x, then the decoded variants are set
+	for _, info := range ctx.Oneofs {
+		gf.P("var decoded", info.Oneof.GoName, " is", info.Oneof.GoIdent.GoName)
+	}
 	for _, info := range ctx.Oneofs {
 		g.generateOneofUnmarshalVariants(gf, info)
 	}
@@ -296,7 +310,15 @@ func (g *Generator) generateOneofUnmarshalJSON(gf *protogen.GeneratedFile, ctx *
 	gf.P("return err")
 	gf.P("}")
 	gf.P()
-	gf.P("return protojson.Unmarshal(modified, x)")
+	gf.P("if err := protojson.Unmarshal(modified, x); err != nil {")
+	gf.P("return err")
+	gf.P("}")
+	for _, info := range ctx.Oneofs {
+		gf.P("if decoded", info.Oneof.GoName, " != nil {")
+		gf.P("x.", info.Oneof.GoName, " = decoded", info.Oneof.GoName)
+		gf.P("}")
+	}
+	gf.P("return nil")
 	gf.P("}")
 	gf.P()
 }
@@ -349,7 +371,6 @@ func (g *Generator) generateFlattenedUnmarshal(
 	fieldGoName := variant.Field.GoName
 	wrapperType := variant.Field.GoIdent.GoName
 	msgType := variant.Field.Message.GoIdent.GoName
-	fieldJSONName := variant.Field.Desc.JSONName()
 
 	// Collect all child field JSON names for this variant
 	var childJSONNames []string
@@ -371,15 +392,7 @@ func (g *Generator) generateFlattenedUnmarshal(
 	gf.P("variantData, _ := json.Marshal(variantMap)")
 	gf.P("variant := &", msgType, "{}")
 	g.generateVariantUnmarshalCall(gf, "variantData", fieldGoName)
-	gf.P("x.", info.Oneof.GoName, " = &", wrapperType, "{", fieldGoName, ": variant}")
-
-	// Add the variant back to raw under its original field name for protojson
-	// (protojson expects the oneof wrapper format)
-	gf.P("if _, ok := any(variant).(json.Marshaler); ok {")
-	gf.P(`raw["`, fieldJSONName, `"], _ = json.Marshal(variant)`)
-	gf.P("} else {")
-	gf.P(`raw["`, fieldJSONName, `"], _ = protojson.Marshal(variant)`)
-	gf.P("}")
+	gf.P("decoded", info.Oneof.GoName, " = &", wrapperType, "{", fieldGoName, ": variant}")
 }
 
 // generateNestedUnmarshal generates non-flattened unmarshal code for a message variant.
@@ -399,7 +412,8 @@ func (g *Generator) generateNestedUnmarshal(
 	gf.P(`if variantRaw, exists := raw["`, fieldJSONName, `"]; exists {`)
 	gf.P("variant := &", msgType, "{}")
 	g.generateVariantUnmarshalCall(gf, "variantRaw", fieldGoName)
-	gf.P("x.", info.Oneof.GoName, " = &", wrapperType, "{", fieldGoName, ": variant}")
+	gf.P("decoded", info.Oneof.GoName, " = &", wrapperType, "{", fieldGoName, ": variant}")
+	gf.P(`delete(raw, "`, fieldJSONName, `")`)
 	gf.P("}")
 }
 
